@@ -31,15 +31,25 @@ fn error_bounds<const B: Word>(
         } else {
             (true, false)
         };
+
+        let mut half_ulp_tz = half_ulp.clone(); // on the side towards zero
+        if is_power_of_base(f) {
+            half_ulp_tz.repr.exponent -= 1;
+        }
+        match f.repr.sign() {
+            Sign::Positive => (half_ulp_tz, half_ulp, incl_l, incl_r),
+            Sign::Negative => (half_ulp, half_ulp_tz, incl_l, incl_r),
+        }
         /*@ proof {
             let (b, sig, exp, p) = (B as int, f.repr.significand.v(), f.repr.exponent as int, f.context.precision as int);
             let d = ndigits(b, sig) as int;
+            let pw = eb_pow(sig);
+            let g = eb_g(b, sig);
             let m = sig * ipow(b, (p - d) as nat);
             lemma_grid_sig(b, sig, (p - d) as nat);
-            lemma_half_units(b, exp + d - p);
-            lemma_eb_table(Mode::HalfAway, m);
-            let t = eb_table(Mode::HalfAway, m);
-            assert(eb_exact(Mode::HalfAway, m, 1, 1, incl_l, incl_r));
+            lemma_half_units(b, exp + d - p, pw);
+            lemma_eb_table(Mode::HalfAway, m, g);
+            let t = eb_table(Mode::HalfAway, m, g);
+            assert(eb_exact(Mode::HalfAway, m, g, t.0, t.1, ret.2, ret.3));
         } @*/
-        (half_ulp.clone(), half_ulp, incl_l, incl_r)
     }
